@@ -34,4 +34,12 @@ Section Model.
     sumL (map (fun p => (if accepted (p_q p) lam zaccept then nth j (p_j0 p) (zero O) * (p_dq p * p_q p / twopi) else zero O) * p_I p) pts).
   Definition G0 (pts : list Pt) : T := sumL (map (fun p => (p_dq p / twopi * p_q p) * p_I p) pts).
   Definition P (pts : list Pt) (lam zaccept : T) (j : nat) : T := G pts lam zaccept j - G0 pts.
+
+  (* direct_model._make_sesans_transform: the acceptance angle theta_max of the data object becomes a q value,
+     zaccept = 2 pi / max(wavelength) * sin(theta_max) - one cut for the whole set, that of the longest wavelength *)
+  Definition maxL (l : list T) : T := fold_left (fun a x => if ltb O a x then x else a) (tl l) (hd (zero O) l).
+  Definition make_zaccept (lams : list T) (sin_theta : T) : T := twopi / maxL lams * sin_theta.
+  (* the value for spin-echo length j of a data set with per-point wavelengths *)
+  Definition P_data (pts : list Pt) (lams : list T) (sin_theta : T) (j : nat) : T :=
+    P pts (nth j lams (zero O)) (make_zaccept lams sin_theta) j.
 End Model.
